@@ -473,7 +473,9 @@ def jobAnnot (j : Json) : Except String Json := do
   let text := encodeAnnotation kvs
   let back := decodeAnnotation ((getStrField j "text").toOption.map String.toList |>.getD text)
   return Json.mkObj [("text", Json.str (String.ofList text)),
-    ("decoded", Json.arr (back.map (fun kv => Json.arr #[Json.str (String.ofList kv.1), Json.str (String.ofList kv.2)])).toArray)]
+    ("decoded", Json.arr (back.map (fun kv => Json.arr #[Json.str (String.ofList kv.1), Json.str (String.ofList kv.2)])).toArray),
+    -- every value also as the importer reads a list of names: `v.split(',')`
+    ("lists", Json.arr (back.map (fun kv => Json.arr ((splitOnChar ',' kv.2).map (fun w => Json.str (String.ofList w))).toArray)).toArray)]
 
 
 /-! ### division and lineage -/
